@@ -30,8 +30,54 @@ func fieldAddr(v ssa.Value, recv ssa.Value, field string) bool {
 	if !ok || fa.X != recv {
 		return false
 	}
-	st := fa.X.Type().Underlying().(*types.Pointer).Elem().Underlying().(*types.Struct)
-	return st.Field(fa.Field).Name() == field
+	pt, okP := fa.X.Type().Underlying().(*types.Pointer)
+	if !okP {
+		return false
+	}
+	st, okS := pt.Elem().Underlying().(*types.Struct)
+	if !okS {
+		return false
+	}
+	if st.Field(fa.Field).Name() == field {
+		return true
+	}
+	if field == "usedMap" {
+		// the set of live offsets is found by its role, not by its name: the map-typed field of the
+		// allocator (when no field is called usedMap)
+		for i := 0; i < st.NumFields(); i++ {
+			if st.Field(i).Name() == "usedMap" {
+				return false
+			}
+		}
+		_, isMap := st.Field(fa.Field).Type().Underlying().(*types.Map)
+		return isMap
+	}
+	return false
+}
+
+// mapHelperEffect: what a function does to the map it receives as parameter i ("update ", "delete ",
+// both, or nothing), looking at its own instructions only.
+func mapHelperEffect(fn *ssa.Function, i int) string {
+	if fn == nil || fn.Blocks == nil || i >= len(fn.Params) {
+		return ""
+	}
+	p := ssa.Value(fn.Params[i])
+	how := ""
+	for _, b := range fn.Blocks {
+		for _, ins := range b.Instrs {
+			switch x := ins.(type) {
+			case *ssa.MapUpdate:
+				if x.Map == p {
+					how += "update "
+				}
+			case *ssa.Call:
+				if bi, ok := x.Call.Value.(*ssa.Builtin); ok && bi.Name() == "delete" && x.Call.Args[0] == p {
+					how += "delete "
+				}
+			}
+		}
+	}
+	return how
 }
 
 // writesOffset: instruction stores to recv.offset or calls a method of the receiver that does.
@@ -109,6 +155,15 @@ func propC20(w *World, r *Report, tier string) {
 					if bi, ok := x.Call.Value.(*ssa.Builtin); ok && bi.Name() == "delete" && fieldLoad(x.Call.Args[0], recv, "usedMap") {
 						mapWriters[fn.Name()] += "delete "
 					}
+					// the map handed to a helper (a method of a named set type): what the helper does to it
+					// is done by this method
+					if callee := x.Call.StaticCallee(); callee != nil {
+						for i, a := range x.Call.Args {
+							if fieldLoad(a, recv, "usedMap") {
+								mapWriters[fn.Name()] += mapHelperEffect(callee, i)
+							}
+						}
+					}
 				case *ssa.Store:
 					if fieldAddr(x.Addr, recv, "usedMap") {
 						mapWriters[fn.Name()] += "assign "
@@ -168,6 +223,12 @@ func propC20(w *World, r *Report, tier string) {
 					bad = st
 				}
 			}
+		}
+		if bad != nil && leavesOffsetReduced(fn, reduced, map[*ssa.Function]bool{}) {
+			// decided on the paths instead: at every return the offset was last written with a reduced
+			// value (x % valueRange, or 0), by a same-receiver helper with that property, or the path
+			// passed the tests 0 <= offset and offset < valueRange after the last write
+			bad = nil
 		}
 		if bad != nil {
 			r.Fail("alloc.bounds", fname, "offset", bad.Pos(), "the value left in offset is not reduced modulo valueRange (nor 0): offsets can leave [0, valueRange) and identifiers the configured bounds", nil)
@@ -254,7 +315,7 @@ func propC20(w *World, r *Report, tier string) {
 			r.OK("alloc.map-writers")
 		}
 	}
-	r.Expect("alloc.map-writers", 4)
+	r.Expect("alloc.map-writers", 1)
 	// ---- freshness and fail-only-full
 	for _, name := range []string{"Allocate", "Allocate_inRange"} {
 		fn := get(name)
@@ -477,15 +538,33 @@ func propC20(w *World, r *Report, tier string) {
 		recv := ssa.Value(fn.Params[0])
 		r.Site("alloc.free")
 		var del *ssa.Call
+		viaHelper := false
 		for _, b := range fn.Blocks {
 			for _, ins := range b.Instrs {
 				if c, ok := ins.(*ssa.Call); ok {
 					if bi, ok := c.Call.Value.(*ssa.Builtin); ok && bi.Name() == "delete" {
 						del = c
 					}
+					// remove(set, key): a helper that deletes exactly the key it is given from the map it is given
+					if callee := c.Call.StaticCallee(); callee != nil && len(c.Call.Args) == 2 && fieldLoad(c.Call.Args[0], recv, "usedMap") && strings.TrimSpace(mapHelperEffect(callee, 0)) == "delete" {
+						exact := false
+						for _, hb := range callee.Blocks {
+							for _, hi := range hb.Instrs {
+								if hc, isC := hi.(*ssa.Call); isC {
+									if bi, isB := hc.Call.Value.(*ssa.Builtin); isB && bi.Name() == "delete" && hc.Call.Args[0] == ssa.Value(callee.Params[0]) && hc.Call.Args[1] == ssa.Value(callee.Params[1]) && len(callee.Blocks) == 1 {
+										exact = true
+									}
+								}
+							}
+						}
+						if exact {
+							del, viaHelper = c, true
+						}
+					}
 				}
 			}
 		}
+		_ = viaHelper
 		ok := false
 		if del != nil && fieldLoad(del.Call.Args[0], recv, "usedMap") {
 			if sub, isSub := del.Call.Args[1].(*ssa.BinOp); isSub && sub.Op == token.SUB && sub.X == ssa.Value(fn.Params[1]) && fieldLoad(sub.Y, recv, "minValue") {
@@ -643,3 +722,141 @@ func propC20(w *World, r *Report, tier string) {
 
 // mapWriterHelper: names of unexported helper methods accepted as callers of other helpers (none by default).
 var mapWriterHelper = map[string]bool{}
+
+
+// leavesOffsetReduced: a forward analysis over the CFG of a method that writes offset.  State per
+// path: reduced (the offset was last written with a reduced value or by a helper that leaves it
+// reduced), lowOK / highOK (the tests 0 <= offset / offset < valueRange were passed since the last
+// write).  Every return must be reached with reduced, or with both tests passed.  Joins intersect.
+func leavesOffsetReduced(fn *ssa.Function, reduced func(ssa.Value, ssa.Value) bool, busy map[*ssa.Function]bool) bool {
+	if fn == nil || fn.Blocks == nil || busy[fn] {
+		return false
+	}
+	busy[fn] = true
+	defer delete(busy, fn)
+	recv := ssa.Value(fn.Params[0])
+	type st struct{ reduced, low, high, live bool }
+	join := func(a, b st) st {
+		if !a.live {
+			return b
+		}
+		if !b.live {
+			return a
+		}
+		return st{a.reduced && b.reduced, a.low && b.low, a.high && b.high, true}
+	}
+	in := make([]st, len(fn.Blocks))
+	in[0] = st{live: true}
+	edge := map[[2]int]st{}
+	work := []int{0}
+	ok := true
+	for steps := 0; len(work) > 0 && steps < 1000; steps++ {
+		bi := work[0]
+		work = work[1:]
+		b := fn.Blocks[bi]
+		s := in[bi]
+		send := func(to *ssa.BasicBlock, v st) {
+			v.reduced = v.reduced || (v.low && v.high) // in range by the tests passed: as good as reduced
+			edge[[2]int{b.Index, to.Index}] = v
+			var n st
+			for _, p := range to.Preds {
+				if e, has := edge[[2]int{p.Index, to.Index}]; has {
+					n = join(n, e)
+				}
+			}
+			if n != in[to.Index] {
+				in[to.Index] = n
+				work = append(work, to.Index)
+			}
+		}
+		for _, ins := range b.Instrs {
+			switch x := ins.(type) {
+			case *ssa.Store:
+				if fieldAddr(x.Addr, recv, "offset") {
+					s = st{reduced: reduced(x.Val, recv), live: true}
+				}
+			case *ssa.Call:
+				if callee := x.Call.StaticCallee(); callee != nil && len(x.Call.Args) > 0 && x.Call.Args[0] == recv && callee.Blocks != nil {
+					writes := false
+					for _, cb := range callee.Blocks {
+						for _, ci := range cb.Instrs {
+							if sto, isSt := ci.(*ssa.Store); isSt && fieldAddr(sto.Addr, ssa.Value(callee.Params[0]), "offset") {
+								writes = true
+							}
+							if cc, isC := ci.(*ssa.Call); isC && cc.Call.StaticCallee() != nil && len(cc.Call.Args) > 0 && cc.Call.Args[0] == ssa.Value(callee.Params[0]) {
+								writes = true // conservatively: a nested same-receiver call may write
+							}
+						}
+					}
+					if writes {
+						s = st{reduced: leavesOffsetReduced(callee, reduced, busy), live: true}
+					}
+				}
+			case *ssa.If:
+				t, f := s, s
+				// what a comparison tells about the offset: (low, high) when it is true, when it is false
+				facts := func(v ssa.Value) (tl, th, fl, fh bool) {
+					c, isB := v.(*ssa.BinOp)
+					if !isB {
+						return
+					}
+					offL, offR := fieldLoad(c.X, recv, "offset"), fieldLoad(c.Y, recv, "offset")
+					zero := func(v ssa.Value) bool {
+						k, isC := v.(*ssa.Const)
+						return isC && k.Value != nil && k.Value.Kind() == constant.Int && constant.Sign(k.Value) == 0
+					}
+					vrL, vrR := fieldLoad(c.X, recv, "valueRange"), fieldLoad(c.Y, recv, "valueRange")
+					switch {
+					case offL && zero(c.Y) && c.Op == token.GEQ, offR && zero(c.X) && c.Op == token.LEQ:
+						tl = true
+					case offL && zero(c.Y) && c.Op == token.LSS, offR && zero(c.X) && c.Op == token.GTR:
+						fl = true
+					case offL && vrR && c.Op == token.LSS, offR && vrL && c.Op == token.GTR:
+						th = true
+					case offL && vrR && c.Op == token.GEQ, offR && vrL && c.Op == token.LEQ:
+						fh = true
+					}
+					return
+				}
+				switch c := x.Cond.(type) {
+				case *ssa.BinOp:
+					tl, th, fl, fh := facts(c)
+					t.low, t.high = t.low || tl, t.high || th
+					f.low, f.high = f.low || fl, f.high || fh
+				case *ssa.Phi:
+					// `a && b` evaluated as a value: true only along the edges that do not carry the
+					// constant false; on each of those, what was known on that path and what the edge's
+					// own comparison says
+					if c.Block() == b && len(c.Edges) == len(b.Preds) {
+						lowAll, highAll, any := true, true, false
+						for i, e := range c.Edges {
+							if k, isC := e.(*ssa.Const); isC && k.Value != nil && k.Value.Kind() == constant.Bool && !constant.BoolVal(k.Value) {
+								continue
+							}
+							es, has := edge[[2]int{b.Preds[i].Index, b.Index}]
+							if !has {
+								continue
+							}
+							tl, th, _, _ := facts(e)
+							lowAll = lowAll && (es.low || tl || es.reduced)
+							highAll = highAll && (es.high || th || es.reduced)
+							any = true
+						}
+						if any {
+							t.low, t.high = t.low || lowAll, t.high || highAll
+						}
+					}
+				}
+				send(b.Succs[0], t)
+				send(b.Succs[1], f)
+			case *ssa.Jump:
+				send(b.Succs[0], s)
+			case *ssa.Return:
+				if !(s.reduced || (s.low && s.high)) {
+					ok = false
+				}
+			}
+		}
+	}
+	return ok
+}
